@@ -7,7 +7,8 @@ VERIF = os.path.dirname(os.path.dirname(os.path.abspath(__file__)))
 REPO = os.environ.get("VERIF_REPO", "/repo")
 SPEC = os.path.join(VERIF, "spec")
 HARNESS = os.path.join(VERIF, "harness")
-BUILD = os.path.join(VERIF, "build")
+BUILD = os.environ.get("VERIF_BUILD", os.path.join(VERIF, "build"))
+OUTROOT = os.environ.get("VERIF_OUT", VERIF)     # evidence/ and replays/ live here (overridden when evaluating seeded changes on scratch trees)
 GUARD = "JEDI_PAIRING_VERIF"
 TLA_JAR = "/opt/veriftools/tla/tla2tools.jar"
 TLA_CP = TLA_JAR + ":/opt/veriftools/tla/CommunityModules-deps.jar"
@@ -257,15 +258,15 @@ def seed():
     except ValueError: return 1
 
 def write_evidence(prop, tier, level, coverage, wall, violations, assumptions=()):
-    os.makedirs(os.path.join(VERIF, "evidence"), exist_ok=True)
+    os.makedirs(os.path.join(OUTROOT, "evidence"), exist_ok=True)
     ev = {"property_id": prop, "tier": tier, "seed": seed(), "level": level, "coverage": coverage,
           "assumptions": list(assumptions), "wall_s": round(wall, 2), "violations": violations}
-    tmp = os.path.join(VERIF, "evidence", prop + ".json.tmp")
+    tmp = os.path.join(OUTROOT, "evidence", prop + ".json.tmp")
     json.dump(ev, open(tmp, "w"), indent=1)
-    os.replace(tmp, os.path.join(VERIF, "evidence", prop + ".json"))
+    os.replace(tmp, os.path.join(OUTROOT, "evidence", prop + ".json"))
 
 def save_replay(prop, name, obj):
-    d = os.path.join(VERIF, "replays")
+    d = os.path.join(OUTROOT, "replays")
     os.makedirs(d, exist_ok=True)
     p = os.path.join(d, "%s_%s.json" % (prop, name))
     json.dump(obj, open(p, "w"), indent=1)
